@@ -110,6 +110,8 @@ def explore_parallel(pool, jobs, tier, nproc, max_paths=400000):
                 if u not in fr["undecided"]:
                     fr["undecided"].append(u)
             fr.setdefault("sites", []).extend(rep.get("sites") or [])
+            for fld in ("inlined", "uses"):
+                fr[fld] = sorted(set(fr.get(fld, [])) | set(rep.get(fld) or []))
             for r in res:
                 results.setdefault((r["fn"], r["name"], tuple(r.get("path") or ()), r.get("line")), r)
             backlog += [(key, case, p) for p in pend]
@@ -318,7 +320,11 @@ def main(argv=None):
             checker_cmd=f"python3-vt -m pyvc.check --property {pid} --tier {tier}",
             trusted_base=prop.get("trusted_base", []) + reg.GLOBAL_TRUSTED,
             functions=[dict(key=k, sha256=rep.get("sha256"), line=rep.get("line"), paths=rep.get("paths"),
-                            cases=rep.get("cases"), time_s=round(rep.get("time_s", 0), 3)) for k, rep in fn_reports.items()],
+                            cases=rep.get("cases"), time_s=round(rep.get("time_s", 0), 3),
+                            inlined_bodies=rep.get("inlined", []),
+                            callee_contracts_used=[u[9:] for u in rep.get("uses", []) if u.startswith("contract:")],
+                            assumed_contracts_used=[u[8:] for u in rep.get("uses", []) if u.startswith("assumed:")])
+                       for k, rep in fn_reports.items()],
             discharged_by_backend=by_backend,
             solver_time_s=round(sum(r.get("time_s", 0) for r in results), 3),
             failed=[r["id"] for r in failed], undecided=[r["id"] for r in undec] + [f"{k}: {u}" for k, us in fn_undec.items() for u in us],
